@@ -151,6 +151,11 @@ BBoxOf(pts) ==
   ELSE FoldLeft(LAMBDA b, p : <<Min2(b[1], p[1]), Min2(b[2], p[2]), Max2(b[3], p[1]), Max2(b[4], p[2])>>,
                 <<pts[1][1], pts[1][2], pts[1][1], pts[1][2]>>, pts)
 
+\* the header box is data of its own ("preserved bit for bit"): the true box, the same with its corners exchanged
+\* (xMin > xMax, yMin > yMax), the extreme corners the wrong way round, and all zero
+BoxChoices(pts) ==
+  LET b == BBoxOf(pts) IN {b, <<b[3], b[4], b[1], b[2]>>, <<32767, -32768, -32768, 32767>>, <<b[1], b[4], b[3], b[2]>>}
+
 Splits(np) == {<<np - 1>>}
                 \cup (IF np >= 2 THEN {<<0, np - 1>>, <<np - 2, np - 1>>} ELSE {})
                 \cup (IF np >= 3 /\ np <= 6 THEN {[i \in 1..np |-> i - 1]} ELSE {})
@@ -182,9 +187,9 @@ FinishSimple ==
   /\ LET np  == NumPts(acc)
          pts == RunPoints(acc)
          ov  == IF (Salt + np + Len(acc)) % 3 = 0 THEN 64 ELSE 0
-     IN \E ends \in Alts(Splits(np), np), ins \in Alts(InstrChoices, np + 1) :
+     IN \E ends \in Alts(Splits(np), np), ins \in Alts(InstrChoices, np + 1), box \in Alts(BoxChoices(pts), np + 2 * Len(acc)) :
           LET body == SimpleBody(ends, ins, acc, ov)
-              g    == SimpleValue(Len(ends), BBoxOf(pts), body)
+              g    == SimpleValue(Len(ends), box, body)
           IN \E pad \in Alts(PadChoices(10 + Len(body)), Len(body)), fmt \in Alts({0, 1}, np + Len(acc)) :
                Finish(g, pad, fmt, (Salt + Len(body)) % 2 = 0)
 
@@ -217,7 +222,7 @@ CompValue(comps, ins) ==
   LET n  == Len(comps)
       hi == Bit(comps[n].flags, 256)
       cs == [i \in 1..n |-> [comps[i] EXCEPT !.flags = comps[i].flags + (IF i < n THEN 32 ELSE 0)]]
-  IN [k |-> "c", nc |-> -1, bbox |-> <<-10, -20, 300 + n, 400>>, body |-> <<>>, comps |-> cs,
+  IN [k |-> "c", nc |-> -1, bbox |-> IF (Salt + n) % 3 = 0 THEN <<300 + n, 400, -10, -20>> ELSE <<-10, -20, 300 + n, 400>>, body |-> <<>>, comps |-> cs,
       instr |-> IF hi /\ ins = "some" THEN <<64, 1, 2, 3, 4>> ELSE <<>>, hasinstr |-> hi]
 
 HeaderNcs == {-1, -2, -3, -128, -32768}
